@@ -3,3 +3,4 @@ import EmdProofs.TreeWF
 import EmdProofs.Roundtrip
 import EmdProofs.Append
 import EmdProofs.AppendSpec
+import EmdProofs.ValidProofs
